@@ -16,7 +16,7 @@ import (
 func init() {
 	Register(&Property{
 		ID: "C01",
-		Explanation: "Decides structural necessary conditions of 'Check = reference semantics': (R01.7) a visited set is installed only below a single check, never by code that fans out several checks with one context; (R01.1) every AST node kind and operator the OPL parser can construct has a case in every dispatch of the check engine; (R01.2) the boolean combinators (or, and, not, the concurrent check group, the pass-through stages) have the right truth tables -- decided by abstractly executing each over the six abstract results; (R01.3) the visited set used to cut cycles is never shared between the operands of an intersection or with the child of a negation, on both routes a context reaches an operand (when it is built, when it is invoked), and is fresh per operand; (R01.5) which of the three sub-checks (rewrite, direct lookup, subject-set expansion) join the union equals the documented table for all valuations of (strict mode, relation configured, has rewrite, declares SubjectSet<>, skipDirect); (R01.6) every call that skips the direct lookup takes its tuple from a traversal result whose Found flag was tested first; (R01.4) the traversal SQL binds the columns the semantics names (decided with the SQL rules, reported under C04/C06 when those are built). " +
+		Explanation: "Decides structural necessary conditions of 'Check = reference semantics': (R01.8) an object handed to a sub-check that keeps running concurrently is not written afterwards by the code that handed it over (otherwise the answer depends on the schedule); (R01.7) a visited set is installed only below a single check, never by code that fans out several checks with one context; (R01.1) every AST node kind and operator the OPL parser can construct has a case in every dispatch of the check engine; (R01.2) the boolean combinators (or, and, not, the concurrent check group, the pass-through stages) have the right truth tables -- decided by abstractly executing each over the six abstract results; (R01.3) the visited set used to cut cycles is never shared between the operands of an intersection or with the child of a negation, on both routes a context reaches an operand (when it is built, when it is invoked), and is fresh per operand; (R01.5) which of the three sub-checks (rewrite, direct lookup, subject-set expansion) join the union equals the documented table for all valuations of (strict mode, relation configured, has rewrite, declares SubjectSet<>, skipDirect); (R01.6) every call that skips the direct lookup takes its tuple from a traversal result whose Found flag was tested first; (R01.4) the traversal SQL binds the columns the semantics names (decided with the SQL rules, reported under C04/C06 when those are built). " +
 			"Not decided: equality with the reference semantics over all configurations and stores, schedule independence in general, SQL engine semantics.",
 		Assumptions: []string{
 			"the documented mode table (embedx/config.schema.json, experimental_strict_mode) is the specification of default/strict mode",
@@ -36,6 +36,8 @@ func runC01(c *Ctx) {
 	// R01.7 one visited set per check: a set shared by several checks makes one
 	// skip what another visited (a skipped sub-check is answered "not a member")
 	visitedInstallScope(c, "R01.7")
+	// R01.8 schedule independence: what a still running sub-check holds is not rewritten
+	handedObjectsNotRewritten(c, "R01.8")
 }
 
 // ---- R01.4 the traversal SQL binds the columns the semantics names ------------------------------
@@ -585,7 +587,11 @@ func r015(c *Ctx) {
 			case core.IsCallTo(v, "containsSubjectSetExpand"):
 				return core.WBool(cse), true
 			}
-			if bo, ok := v.(*ssa.BinOp); ok && (bo.Op == token.EQL || bo.Op == token.NEQ) && core.IsNilConst(bo.Y) {
+			if bo0, ok := v.(*ssa.BinOp); ok && (bo0.Op == token.EQL || bo0.Op == token.NEQ) && (core.IsNilConst(bo0.Y) || core.IsNilConst(bo0.X)) {
+				bo := &ssa.BinOp{Op: bo0.Op, X: bo0.X, Y: bo0.Y}
+				if core.IsNilConst(bo0.X) {
+					bo.X, bo.Y = bo0.Y, bo0.X
+				}
 				isNil, known := false, false
 				switch {
 				case isRelationValue(bo.X):
